@@ -428,3 +428,78 @@ Proof.
   split; [vm_compute; reflexivity|]. split; [vm_compute; reflexivity|].
   exact (C15_order_at_write_or_at_read d root (-1)%Z fsU fsO Hw Hwr Hc Hn Hq HU HO).
 Qed.
+
+(* ================================================================================================== *)
+(* added from Properties/C15_add.v (2026-10-01, pj_c16c)  *)
+(* ================================================================================================== *)
+(* C15 (continued): ordering when the file is written = ordering when the file is read, for DictReader.read with its
+   DEFAULT options (include processing ON, comments on, no scope).  C15_order_at_write_or_at_read above is the
+   includes=False version; with includes=True the reader runs its include pass (_merge_includes: merge of the -- here
+   empty -- included data, then the merge of the dict into itself with the clean-up), which is the identity on the
+   states read back from a plain file (AppendSeq.merge_includes_st), and does not drop any key afterwards. *)
+From Coq Require Import String.
+From Coq Require Import NArith ZArith List Bool Permutation.
+From DictIO Require Import Chars Str Value Scalar KeyPath SDict Layout Lexer TokParser Reader Expr Eval Cli Parse.
+From DictIO Require Import TreeSpec NativeSpec E2ESpec E2EFullProofs OrderProofs OrderFile OrderInclude.
+Import ListNotations.
+
+Theorem C15_order_at_write_or_at_read_includes : forall kvs root count fsU fsO,
+  wf (Dict kvs) = true -> writable_tree (Dict kvs) = true ->
+  (-1 <= count)%Z -> (Z.of_nat (nq (Dict kvs)) <= 1000000)%Z -> quoted_within 11 (Dict kvs) = true ->
+  fs_lookup (norm_path root) fsU = Some (FNative (to_string_plain kvs)) ->
+  fs_lookup (norm_path root) fsO = Some (FNative (to_string_plain (kvs_of (order_tree (Dict kvs))))) ->
+  exists s c',
+    read_opts fsU root true false true [] count = Some (Ok (s, c')) /\
+    read_opts fsU root true true true [] count = Some (Ok (sd_order s, c')) /\
+    read_opts fsO root true false true [] count = Some (Ok (sd_order s, c')) /\
+    read_opts fsO root true true true [] count = Some (Ok (sd_order s, c')) /\
+    sd_data s = kvs_of (map_leaves written_value (Dict kvs)).
+Proof. exact order_at_write_or_at_read_includes. Qed.
+Print Assumptions C15_order_at_write_or_at_read_includes.
+
+(* non-vacuity: the dict of C15_order_at_write_or_at_read_nonvacuous; each file tree holds a second file as well (it is
+   not included by anything: the include pass has nothing to do, whatever else the file tree holds) *)
+Example C15_order_at_write_or_at_read_includes_nonvacuous :
+  let d := [(KS (of_string "zeta"), Leaf (SStr (of_string "two  words")));
+            (KI 7, Dict [(KS (of_string "y"), Leaf (SInt 2)); (KI 3, Leaf (SStr (of_string "a b; c")));
+                         (KS (of_string "x"), Leaf (SBool true)); (KI (-1), Leaf SNone)]);
+            (KS (of_string "alpha"), Lst [Dict [(KS (of_string "q"), Leaf (SInt 1)); (KS (of_string "p"), Leaf (SStr (of_string "it's")))];
+                                          Leaf (SInt 7)]);
+            (KI (-2), Leaf (SFloat (of_string "1.5")))] in
+  let od := [(KI (-2), Leaf (SFloat (of_string "1.5")));
+             (KI 7, Dict [(KI (-1), Leaf SNone); (KI 3, Leaf (SStr (of_string "a b; c")));
+                          (KS (of_string "x"), Leaf (SBool true)); (KS (of_string "y"), Leaf (SInt 2))]);
+             (KS (of_string "alpha"), Lst [Dict [(KS (of_string "q"), Leaf (SInt 1)); (KS (of_string "p"), Leaf (SStr (of_string "it's")))];
+                                           Leaf (SInt 7)]);
+             (KS (of_string "zeta"), Leaf (SStr (of_string "two  words")))] in
+  let root := of_string "/d/x.dict" in
+  let other : str * funit := (of_string "/d/other.dict", FNative (of_string "mm 1;")) in
+  let fsU : fsys := [other; (root, FNative (to_string_plain d))] in
+  let fsO : fsys := [(root, FNative (to_string_plain (kvs_of (order_tree (Dict d))))); other] in
+  wf (Dict d) = true /\ writable_tree (Dict d) = true /\ (Z.of_nat (nq (Dict d)) <= 1000000)%Z /\ quoted_within 11 (Dict d) = true /\
+  fs_lookup (norm_path root) fsU = Some (FNative (to_string_plain d)) /\
+  fs_lookup (norm_path root) fsO = Some (FNative (to_string_plain (kvs_of (order_tree (Dict d))))) /\
+  od <> d /\
+  read_opts fsU root true false true [] (-1) = Some (Ok (mkSD d [] [] [] [], 2%Z)) /\
+  read_opts fsO root true false true [] (-1) = Some (Ok (mkSD od [] [] [] [], 2%Z)) /\
+  (exists s c',
+    read_opts fsU root true false true [] (-1) = Some (Ok (s, c')) /\
+    read_opts fsU root true true true [] (-1) = Some (Ok (sd_order s, c')) /\
+    read_opts fsO root true false true [] (-1) = Some (Ok (sd_order s, c')) /\
+    read_opts fsO root true true true [] (-1) = Some (Ok (sd_order s, c')) /\
+    sd_data s = kvs_of (map_leaves written_value (Dict d))).
+Proof.
+  intros d od root other fsU fsO.
+  assert (Hw : wf (Dict d) = true) by (vm_compute; reflexivity).
+  assert (Hwr : writable_tree (Dict d) = true) by (vm_compute; reflexivity).
+  assert (Hn : (Z.of_nat (nq (Dict d)) <= 1000000)%Z) by (vm_compute; discriminate).
+  assert (Hq : quoted_within 11 (Dict d) = true) by (vm_compute; reflexivity).
+  assert (Hc : (-1 <= -1)%Z) by discriminate.
+  assert (HU : fs_lookup (norm_path root) fsU = Some (FNative (to_string_plain d))) by (vm_compute; reflexivity).
+  assert (HO : fs_lookup (norm_path root) fsO = Some (FNative (to_string_plain (kvs_of (order_tree (Dict d))))))
+    by (vm_compute; reflexivity).
+  refine (conj Hw (conj Hwr (conj Hn (conj Hq (conj HU (conj HO _)))))).
+  split; [vm_compute; discriminate|].
+  split; [vm_compute; reflexivity|]. split; [vm_compute; reflexivity|].
+  exact (C15_order_at_write_or_at_read_includes d root (-1)%Z fsU fsO Hw Hwr Hc Hn Hq HU HO).
+Qed.
